@@ -10,6 +10,8 @@ Model of the metadata-refresh side of C15: `scylla/src/cluster/state.rs`
 * `refresh`                       ← `ClusterState::new_updated` / `new_with_updated_topology` (205-270), tablets part.
 * `learn`                         ← one iteration of `ClusterState::update_tablets` (647-675): `Tablet::from_raw_tablet` against
                                     the current `known_nodes`, then `TabletsInfo::add_tablet`.
+* `resolveKeyspaces`, `refreshFetched` ← `ClusterState::resolve_metadata_keyspaces` (345-373) in front of `new_updated`: a keyspace
+                                    whose fetch failed reuses the previous state's version, or is dropped if there is none.
 * `refreshTopology`               ← `ClusterState::new_with_updated_topology` (242-270): peers only, the keyspaces of `self`.
 * `locatorTabletReplicas`         ← the tablet branch of `ReplicaLocator::replicas_for_token` (`routing/locator/mod.rs:111-124`).
 * `learnBatch`                    ← `ClusterState::update_tablets` itself: the `for (table, raw_tablet) in raw_tablets` loop over
@@ -105,6 +107,21 @@ def learn (cs : CState) (spec : String × String) (first last : Int) (raw : List
 /-- `new_updated` with the keyspaces given with tables and views apart -/
 def refreshKs (cs : CState) (peers : List Peer) (keyspaces : List KsMeta) : CState :=
   refresh cs peers (keyspaces.map KsMeta.entry)
+
+/-- `resolve_metadata_keyspaces`: the fetched keyspaces by name, `none` = the fetch of this keyspace failed
+(`Err(SingleKeyspaceMetadataError)`); `old` = the keyspaces of the previous state.  A failed keyspace reuses
+its old version; without one it is not present until the next refresh. -/
+def resolveOne (old : List KsMeta) (e : String × Option KsMeta) : Option KsMeta :=
+  match e.2 with
+  | some k => some k
+  | none => old.find? (fun k => k.name == e.1)
+
+def resolveKeyspaces (fetched : List (String × Option KsMeta)) (old : List KsMeta) : List KsMeta :=
+  fetched.filterMap (resolveOne old)
+
+/-- `new_updated` from the raw fetch result: keyspaces are resolved against the previous state's keyspaces first -/
+def refreshFetched (cs : CState) (peers : List Peer) (fetched : List (String × Option KsMeta)) (old : List KsMeta) : CState :=
+  refreshKs cs peers (resolveKeyspaces fetched old)
 
 /-- `ClusterState::new_with_updated_topology`: only the peers are new; `self.keyspaces` (the keyspaces of the
 previous state, an explicit argument here) are handed to `perform_tablets_maintenance` again. -/
